@@ -38,7 +38,12 @@ RULE = ("(a) Hypothesis draws conflict-free definition closures (1-6 files, 1-3 
         "must raise the matching ParserError subclass. (c) histories: 2-3 parses on ONE Parser object in one directory - first one or two "
         "closures that abort (import of a missing file, message without id, definition without fields, signal used as field type, or a "
         "conflict), then the corrected conflict-free closure or a single-conflict closure in the same files - the last parse must give the "
-        "verdict of a fresh parser (registered union / conflict class). (d) user files CALLED core_defs.yaml (the name of the package's own core definition "
+        "verdict of a fresh parser (registered union / conflict class). The last closure of a history is also compiled by the public two-step sequence "
+        "of rtma_compiler's main() - Parser.parse_compiler_options(root), then Parser.parse(root) - with BOTH calls on the one Parser object (root file "
+        "without and with a compiler_options section) or with the options pass on a second object, as the first thing the Parser does or after an aborted "
+        "parse: the whole conflict table is enumerated that way (kinds that need the core definitions: all in thorough, a rotating quarter in quick), the "
+        "conflict-free table closures, and drawn closures with any conflict kind / placement / order; a conflict must be raised (by either call), a conflict-free "
+        "closure must be registered completely with every file read once. (d) user files CALLED core_defs.yaml (the name of the package's own core definition "
         "file, which alone is exempt from the host / module id range rules): the root, an imported file beside it or one in another directory of a closure "
         "compiled with the core definitions bears that name and holds either additional in-range host and module ids (must be accepted, registered union) or "
         "one host id (40000, 32768, 70000, -7, 0, -1), module id (7, 9, 1, -1, -2, 100, 150, 199) or message id (10001, -1, ...) outside its range (must be "
@@ -50,6 +55,7 @@ ASSUME = [
     "module and host id RANGE checks exist only when the core definitions are imported, so range conflicts are generated only there",
     "two identical keys in one YAML mapping are rejected by the YAML loader first: YAMLSyntaxError is accepted for a name collision inside one section of one file",
     "nothing is claimed about what a Parser object accumulates after a SUCCESSFUL parse (tests/test_parser.py relies on accumulation); histories only continue after aborted parses",
+    "parse_compiler_options(root) followed by parse(root) on one Parser object is a legitimate use of the public API (main() performs the same two calls, on two objects; nothing documents that the options pass consumes the object): the pair must give the verdict of a plain parse(root). An exception raised by the options pass itself (e.g. YAMLSyntaxError for a repeated key in the root file) counts as the outcome of the sequence, as in main(). What parse_compiler_options returns is not judged here",
     "the exemption of the core definitions from the host / module range rules belongs to the package's own file (pyrtma/core_defs/core_defs.yaml), not to the file NAME: a user file of that name is a user file (same reading as fix 12c0944 for the C header)",
     "duplicate module or host NAMES are outside the statement (those have their own namespaces) and are never used as the expected conflict",
     "a reserved range longer than 100 ids is a syntax matter, not a conflict, and is not generated",
@@ -455,18 +461,64 @@ def _parse_on(ps, p: G.Program, d: str) -> G.ParseOutcome:
         os.chdir(cwd)
 
 
-def check_history(steps, res: Result = None):
+PRE_MODES = ("options", "options-with-section", "options-other-parser")
+
+
+def _with_options_section(p: G.Program) -> G.Program:
+    """Copy of closure p whose root file carries a compiler_options section that says what p's own options say (the Parser API
+    does not apply the section, the command line takes it as its defaults: no contradiction either way)."""
+    q = p.clone()
+    q.spec(q.root).compiler_options = {"IMPORT_COREDEFS": p.import_coredefs, "AUTO_PAD": p.auto_pad, "VALIDATE_ALIGNMENT": p.validate_alignment}
+    q.fault = p.fault
+    q.classes.add("root-compiler-options")
+    q.rerender()
+    return q
+
+
+def _write_closure(p: G.Program, d: str) -> str:
+    for name in os.listdir(d):
+        shutil.rmtree(os.path.join(d, name), ignore_errors=True) if os.path.isdir(os.path.join(d, name)) else os.remove(os.path.join(d, name))
+    return p.write(d)
+
+
+def _options_then_parse(ps, p: G.Program, d: str, other=None) -> G.ParseOutcome:
+    """The public two-step sequence of rtma_compiler's main(): parse_compiler_options(root), then parse(root).  Both calls on the
+    Parser ``ps`` - or, like main(), the options pass on ``other`` and the parse on ``ps``.  An exception of the options pass is
+    the outcome of the sequence (main() exits with status 1 there)."""
+    root = _write_closure(p, d)
+    cwd = os.getcwd()
+    try:
+        (other or ps).parse_compiler_options(root)
+        ps.parse(root)
+        return G.ParseOutcome("ok", ps, None, root)
+    except BaseException as e:  # noqa
+        if isinstance(e, (KeyboardInterrupt, SystemExit)):
+            raise
+        return G.ParseOutcome(type(e).__name__, None, e, root)
+    finally:
+        os.chdir(cwd)
+
+
+def check_history(steps, res: Result = None, pre: str = None):
     """steps: closures parsed one after the other by ONE Parser in ONE directory (the later ones overwrite the files of the earlier
     ones).  All but the last are expected to fail (generated faults: missing import file, definition without id / fields, signal
     used as a field type, or a genuine conflict); a failed parse must leave nothing behind: the last closure - conflict-free or with
-    exactly one conflict - must get the verdict a fresh Parser gives it (the registered union, or the conflict's exception)."""
+    exactly one conflict - must get the verdict a fresh Parser gives it (the registered union, or the conflict's exception).
+    ``pre``: the last closure is compiled by the public two-step sequence parse_compiler_options(root), parse(root) - "options": both
+    on the one Parser object, "options-with-section": the same with a compiler_options section in the root file, "options-other-parser":
+    the options pass on a second Parser object (what rtma_compiler's main() does).  With ``pre`` there may be no earlier parse at all."""
     import logging
     from pyrtma.parser import Parser
 
+    if pre is not None and pre not in PRE_MODES:
+        raise HarnessError(f"unknown history prelude {pre!r}")
     last = steps[-1]
-    trace = {"mode": "history", "steps": [q.to_json() for q in steps]}
+    if pre == "options-with-section" and not last.spec(last.root).compiler_options:
+        last = _with_options_section(last)
+    trace = {"mode": "history", "steps": [q.to_json() for q in steps[:-1]] + [last.to_json()], "pre": pre}
     d = G.scratch_dir("c12hist")
     ps = Parser(**last.compile_kwargs())
+    other = Parser(**last.compile_kwargs()) if pre == "options-other-parser" else None
     kinds = []
     try:
         for q in steps[:-1]:
@@ -474,29 +526,41 @@ def check_history(steps, res: Result = None):
             kinds.append(f"{(q.fault or {}).get('kind') or (q.conflict or {}).get('kind', '?')}->{out.outcome}")
             if out.ok:
                 return  # the premise (an aborted parse) does not hold: nothing is claimed about accumulation after a success
-        out = _parse_on(ps, last, d)
+        out = _options_then_parse(ps, last, d, other) if pre else _parse_on(ps, last, d)
         first = steps[0]
-        fk = (first.fault or {}).get("kind") or "conflict"
+        fk = ((first.fault or {}).get("kind") or "conflict") if len(steps) > 1 else None
+        told = (f"earlier parses {kinds} (each aborted), then " if kinds else "")
+        if pre:
+            fk = (fk + "+" if fk else "") + "options-pass"
+            told += ("parse_compiler_options(root)" + (" on a second Parser object" if other else "") + (" (the root file has a compiler_options section)" if last.spec(last.root).compiler_options else " (the root file has no compiler_options section)")
+                     + " and then parse(root) of ")
         try:
             if last.conflict:
                 check_conflict(last, None, out=out, trace=trace)
             else:
                 check_free(last, None, out=out, trace=trace)
         except Violation as v:
-            if v.key.startswith("reserved-spelling/"):
-                raise
-            raise Violation(f"history/after-{fk}/{'/'.join(v.key.split('/')[:2])}", f"one Parser object, earlier parses {kinds} (each aborted), then the "
+            if v.key.startswith("reserved-spelling/") and (not pre or G.parse_program(last).outcome == out.outcome):
+                raise  # a matter of the spelling (a fresh Parser answers the same), not of the history
+            raise Violation(f"history/after-{fk}/{'/'.join(v.key.split('/')[:2])}", f"one Parser object, {told}the "
                             f"{'single-conflict' if last.conflict else 'conflict-free'} closure in the same files: {v.what}", trace)
         if res is not None:
             res.count("histories")
-            res.count("history/first-failure/" + fk)
+            if len(steps) > 1:
+                res.count("history/first-failure/" + ((first.fault or {}).get("kind") or "conflict"))
             res.count("history/last/" + ("conflict" if last.conflict else "free"))
+            if pre:
+                res.count("history/options-pass/" + pre + ("/after-aborted-parse" if kinds else "/first-call"))
+                res.count("history/options-pass/last/" + ("conflict-raised-" + out.outcome if last.conflict else "free-registered"))
             res.shape("history", tuple(k.split("->")[0].split("/")[0] for k in kinds), tuple(k.split("->")[1] for k in kinds),
-                      (last.conflict or {}).get("kind", "free").split("/")[0], (first.fault or {}).get("file") == first.root, last.import_coredefs)
+                      (last.conflict or {}).get("kind", "free").split("/")[0], (first.fault or {}).get("file") == first.root, last.import_coredefs, pre)
     finally:
-        for h in list(ps.logger.handlers):
-            ps.logger.removeHandler(h)
-        logging.Logger.manager.loggerDict.pop(ps.logger.name, None)
+        for p_ in (ps, other):
+            if p_ is None:
+                continue
+            for h in list(p_.logger.handlers):
+                p_.logger.removeHandler(h)
+            logging.Logger.manager.loggerDict.pop(p_.logger.name, None)
         shutil.rmtree(d, ignore_errors=True)
 
 
@@ -534,21 +598,88 @@ def histories(core: bool = False):
     return _h()
 
 
+def build_options_history(ch: G.Chooser, core: bool = False):
+    """-> (steps, pre): a conflict-free or single-conflict closure (any conflict kind, placement, order) compiled by the two-step
+    sequence parse_compiler_options(root), parse(root) - on one Parser object (root file with or without a compiler_options section)
+    or with the options pass on a second object -, as the first thing the Parser does or after one aborted parse."""
+    base = G.build_program(ch, import_coredefs=core, skeleton=ch.chance(0.5), min_files=ch.choice([1, 2]), allow=ALLOW)
+    pls = [pl for pl in G.PLACEMENTS if G.file_pairs(base, pl)]
+    steps = []
+    if ch.chance(0.3):
+        kind = ch.choice(G.FAULT_KINDS + ["conflict"])
+        if kind == "conflict":
+            q = G.inject_conflict(base, ch.choice(["msgid/msg-msg", "name/constant-struct", "modid/dup", "msgid/signal-reserved"]), ch.choice(pls), ch)
+            q.options["import_coredefs"] = core
+        else:
+            q = G.inject_fault(base, kind, ch, where=ch.choice([None, "root", "leaf"]))
+        if q is not None:
+            steps.append(q)
+    if ch.chance(0.4):
+        steps.append(base)
+    else:
+        kinds = [k for k in G.CONFLICT_KINDS if k not in G.NEEDS_CORE or core]
+        steps.append(G.inject_conflict(base, ch.choice(kinds), ch.choice(pls), ch, swap=ch.chance(0.5)))
+    return steps, ch.weighted([("options", 3), ("options-with-section", 3), ("options-other-parser", 1)])
+
+
+def options_histories(core: bool = False):
+    from hypothesis import strategies as st
+
+    G.core_defs()
+
+    @st.composite
+    def _h(draw):
+        return build_options_history(G.HypChooser(draw), core)
+
+    return _h()
+
+
+def _history_collect(steps, res: Result, pre=None):
+    res.evaluations += 1
+    try:
+        check_history(steps, res, pre=pre)
+    except Violation as v:
+        res.add_finding(v.key, v.what, v.trace)
+
+
 def history_table(res: Result):
-    """Every fault kind at the root and at a leaf file, followed by the corrected closure and by two single-conflict closures."""
+    """Every fault kind at the root and at a leaf file, followed by the corrected closure and by three single-conflict closures - parsed
+    directly, and by the two-step sequence options pass + parse."""
     base = table_bases()[0]
     for i, kind in enumerate(G.FAULT_KINDS + ["conflict"]):
         for where in ("root", "leaf"):
             ch = G.RandomChooser(100 + i)
             first = (G.inject_fault(base, kind, ch, where=where) if kind != "conflict"
                      else G.inject_conflict(base, "msgid/msg-signal", "cousins", ch))
-            for last in (base, G.inject_conflict(base, "msgid/msg-msg", "parent-child", ch), G.inject_conflict(base, "name/alias-message", "siblings", ch),
-                         G.inject_conflict(base, "hostid/dup", "same", ch)):
-                res.evaluations += 1
-                try:
-                    check_history([first, last], res)
-                except Violation as v:
-                    res.add_finding(v.key, v.what, v.trace)
+            for k, last in enumerate((base, G.inject_conflict(base, "msgid/msg-msg", "parent-child", ch), G.inject_conflict(base, "name/alias-message", "siblings", ch),
+                                      G.inject_conflict(base, "hostid/dup", "same", ch))):
+                _history_collect([first, last], res)
+                _history_collect([first, last], res, pre=PRE_MODES[(i + k + (where == "leaf")) % 2])
+
+
+def options_table(idx: int, nshards: int, res: Result, seed: int = 0, full: bool = True):
+    """The enumerated conflict table once more, every case compiled by parse_compiler_options(root) + parse(root) on ONE Parser
+    object (root file without and with a compiler_options section, alternating; every 8th case with the options pass on a second
+    Parser object): the kinds that need the core definitions with them - all of them in thorough, a quarter (rotating with the seed)
+    in quick -, the others without.  Plus the conflict-free table bases in every mode."""
+    cases = G.all_conflict_cases()
+    bases = table_bases()
+    for i, case in enumerate(cases):
+        if i % nshards != idx:
+            continue
+        core = case["kind"] in G.NEEDS_CORE
+        if core and not (full or (i // nshards + seed) % 4 == 1):
+            continue
+        base = bases[2] if core else bases[(i + 1) % 2]
+        q = G.inject_conflict(base, case["kind"], case["placement"], G.RandomChooser(i * 7 + 3), swap=case["swap"], variant=case["variant"])
+        if q is None:
+            raise HarnessError(f"table base has no file pair for placement {case['placement']}")
+        q.options["import_coredefs"] = core
+        res.count("options-table-cases")
+        _history_collect([q], res, pre=PRE_MODES[2] if i % 8 == 7 else PRE_MODES[(i // nshards) % 2])
+    if idx < len(bases) * len(PRE_MODES):
+        res.count("options-table-cases")
+        _history_collect([bases[idx % len(bases)]], res, pre=PRE_MODES[idx // len(bases)])
 
 
 # ----------------------------------------------------------------------------------------------
@@ -588,7 +719,7 @@ def cli_case(p: G.Program, res: Result):
 # ----------------------------------------------------------------------------------------------
 
 
-def shard(idx: int, nshards: int, seed: int, n_free: int, n_conf: int, n_cli: int, vseed: int = 0, full: bool = True, n_hist: int = 40, n_core_named: int = 6):
+def shard(idx: int, nshards: int, seed: int, n_free: int, n_conf: int, n_cli: int, vseed: int = 0, full: bool = True, n_hist: int = 40, n_core_named: int = 6, n_opt: int = 30):
     G.quiet()
     res = Result()
     run_table(idx, nshards, res, seed=vseed, full=full)
@@ -610,6 +741,10 @@ def shard(idx: int, nshards: int, seed: int, n_free: int, n_conf: int, n_cli: in
     for k, core in enumerate((False, True)):
         sb = G.ShrinkBudget(15)
         hyp_run(sb.body(lambda st_: check_history(st_, res)), sb.wrap(histories(core)), seed + 20 + k, max(1, n_hist * (1 if core else 4) // 5), res)
+    options_table(idx, nshards, res, seed=vseed, full=full)
+    for k, core in enumerate((False, True)):
+        sb = G.ShrinkBudget(15)
+        hyp_run(sb.body(lambda sp: check_history(sp[0], res, pre=sp[1])), sb.wrap(options_histories(core)), seed + 40 + k, max(1, n_opt * (1 if core else 4) // 5), res)
     if n_cli:
         rnd = G.RandomChooser(seed + 2)
         for k in range(n_cli):
@@ -631,7 +766,7 @@ def run(ctx: RunContext) -> int:
     n_free = ctx.scale(200, 2500)
     n_conf = ctx.scale(160, 2500)
     n_cli = 0 if ctx.quick else 6
-    res = run_shards(shard, [(i, 16, derive_seed(ctx.seed, i), n_free, n_conf, n_cli, ctx.seed, not ctx.quick, ctx.scale(40, 1500), ctx.scale(6, 300)) for i in range(16)])
+    res = run_shards(shard, [(i, 16, derive_seed(ctx.seed, i), n_free, n_conf, n_cli, ctx.seed, not ctx.quick, ctx.scale(40, 1500), ctx.scale(6, 300), ctx.scale(30, 1200)) for i in range(16)])
     res.notes.append(f"the conflict table ({len(G.all_conflict_cases())} kind x placement x order x spelling x position x value cases) was enumerated "
                      "completely: kinds that need the core definitions with them, all others without; the latter additionally with the core "
                      + ("for every case" if not ctx.quick else "for a quarter of the cases (rotating with the seed; every case in thorough)"))
@@ -646,7 +781,7 @@ def replay_trace(trace: dict):
     elif trace["mode"] == "conflict":
         check_conflict(p)
     elif trace["mode"] == "history":
-        check_history([G.Program.from_json(q) for q in trace["steps"]])
+        check_history([G.Program.from_json(q) for q in trace["steps"]], pre=trace.get("pre"))
     elif trace["mode"] == "core-named":
         check_core_named(p)
     elif trace["mode"] == "cli":
